@@ -38,7 +38,7 @@ Definition die_split_ok (d : DieSt) (r : Qc) (n : Z) (d' : DieSt) : bool :=
   match phase1 (phase1_fuel (refinable d)) (refinable d) r n with
   | Ok p1 =>
     if (Z.to_nat n <=? List.length p1)%nat
-    then rects_eqb (spec d') (spec (repartition d p1)) && rects_eqb (ground d') (ground (repartition d p1))
+    then perm_rects (spec d') (spec (repartition d p1)) && perm_rects (ground d') (ground (repartition d p1))
     else phase2_ok p1 (refinable d') r (Z.to_nat n)
   | _ => false
   end.
